@@ -24,6 +24,7 @@ import (
 	"sync/atomic"
 	"testing"
 
+	"github.com/XiaoMi/Gaea/util"
 	kit "github.com/XiaoMi/Gaea/verifkit"
 )
 
@@ -33,7 +34,7 @@ const (
 )
 
 type c25Case struct {
-	Part     string `json:"part"` // next | slaveconn | conc-next | conc-slaveconn | status-race
+	Part     string `json:"part"` // next | slaveconn | getconn | conc-next | conc-slaveconn | status-race
 	Weights  []int  `json:"weights"`
 	Local    []bool `json:"local,omitempty"`
 	Up       []bool `json:"up,omitempty"`
@@ -41,6 +42,10 @@ type c25Case struct {
 	NearWrap bool   `json:"near_wrap"`
 	G        int    `json:"goroutines,omitempty"`
 	K        int    `json:"rounds,omitempty"`
+	// part getconn: the entry point Slice.GetConn(reqCtx{FromSlave}, userType, policy)
+	UserType int       `json:"user_type,omitempty"` // 0 normal, 1 statistic, 2 monitor
+	Fallback string    `json:"fallback,omitempty"`  // fallback_to_master_on_slave_fail: on | off
+	Groups   []c25Case `json:"groups,omitempty"`    // replica lists of Slave, StatisticSlave, MonitorSlave
 }
 
 type c25Result struct {
@@ -489,9 +494,126 @@ func c25RunStatusRace(c c25Case, flips int, draws int) (c25Result, int64) {
 	return c25Result{}, picked
 }
 
+// ---------------------------------------------------------------------------------------
+// part getconn: selection through the real entry point Slice.GetConn for every user type.
+// Pool ids: group g (0 Slave, 1 StatisticSlave, 2 MonitorSlave) node i -> g*100+i;
+// master 1000, monitor master 1001.
+
+const (
+	c25MasterID    = 1000
+	c25MonMasterID = 1001
+)
+
+func c25RunGetConn(c c25Case) c25Result {
+	if len(c.Groups) != 3 {
+		return c25Result{Clause: "harness/bad-case"}
+	}
+	s := &Slice{Namespace: "c25", FallbackToMasterOnSlaveFail: c.Fallback}
+	mk := func(g int, gc c25Case) (*DBInfo, error) {
+		d := &DBInfo{Nodes: []*NodeInfo{}}
+		for i, wt := range gc.Weights {
+			dc := c25RemoteDC
+			if gc.Local[i] {
+				dc = c25LocalDC
+			}
+			n, _ := hcNode(g*100+i, wt, dc, gc.Up[i], nil)
+			d.Nodes = append(d.Nodes, n)
+		}
+		return d, d.InitBalancers(c25LocalDC)
+	}
+	var err error
+	if s.Slave, err = mk(0, c.Groups[0]); err == nil {
+		if s.StatisticSlave, err = mk(1, c.Groups[1]); err == nil {
+			s.MonitorSlave, err = mk(2, c.Groups[2])
+		}
+	}
+	if err != nil {
+		return c25Result{Clause: "init-balancers-failed", Detail: err.Error()}
+	}
+	mn, _ := hcNode(c25MasterID, 1, c25LocalDC, true, nil)
+	mm, _ := hcNode(c25MonMasterID, 1, c25LocalDC, true, nil)
+	s.Master = &DBInfo{Nodes: []*NodeInfo{mn}}
+	s.MonitorMaster = &DBInfo{Nodes: []*NodeInfo{mm}}
+
+	// what the statement lets this user see
+	target := map[int]int{0: 0, 1: 1, 2: 2}[c.UserType]
+	gc := c.Groups[target]
+	gc.Policy = c.Policy
+	masterID := -1 // master connection allowed as a fallback only
+	if s.ShouldFallbackToMasterOnSlaveFail() {
+		switch c.UserType {
+		case 0:
+			masterID = c25MasterID
+		case 2:
+			masterID = c25MonMasterID
+		}
+	}
+	reqCtx := util.NewRequestContext()
+	reqCtx.SetFromSlave(true)
+
+	_, wg := c25Norm(gc.Weights, nil)
+	d := 3*wg + 8
+	picks := make([]int, 0, d)
+	local := make([]int, 0, d) // index inside the target group, -1 for refusal / fallback
+	for j := 0; j < d; j++ {
+		pc, e := s.GetConn(reqCtx, c.UserType, c.Policy)
+		id := -1
+		if e == nil {
+			if hc, ok := pc.(*hcConn); ok && hc != nil && hc.pool != nil {
+				id = hc.pool.id
+			} else {
+				return c25Result{Clause: "foreign-connection", Detail: fmt.Sprintf("selection %d: %T", j, pc), Picks: picks}
+			}
+		}
+		picks = append(picks, id)
+		_, anyMay, _ := c25Class(gc, gc.Up)
+		switch {
+		case e != nil || id == masterID:
+			// refusal, or fallback to the master: only when no replica of the group may serve
+			if anyMay {
+				what := "refused"
+				if e == nil {
+					what = "fell back to the master"
+				} else {
+					what += ": " + e.Error()
+				}
+				return c25Result{Clause: "no-pick-while-eligible-up", Detail: fmt.Sprintf("selection %d %s", j, what), Picks: picks}
+			}
+			local = append(local, -1)
+		case id/100 != target || id%100 >= len(gc.Weights):
+			return c25Result{Clause: "wrong-group-picked", Detail: fmt.Sprintf("selection %d for user type %d returned pool %d (expected a replica of group %d)", j, c.UserType, id, target), Picks: picks}
+		default:
+			n := id % 100
+			local = append(local, n)
+			if cl, det := c25CheckPick(gc, gc.Up, n, nil); cl != "" {
+				return c25Result{Clause: cl, Detail: fmt.Sprintf("selection %d: %s", j, det), Picks: picks}
+			}
+		}
+	}
+	if c25AllUp(gc.Up) {
+		may, _, _ := c25Class(gc, gc.Up)
+		exp, wc := c25Norm(gc.Weights, may)
+		if wc > 0 {
+			if pos := c25Windows(local, exp, wc); pos >= 0 {
+				return c25Result{Clause: "window", Picks: picks,
+					Detail: fmt.Sprintf("window of %d selections starting at selection %d = %v (pool ids), expected counts per node of group %d: %v", wc, pos, picks[pos:pos+wc], target, exp)}
+			}
+		}
+	}
+	return c25Result{Picks: picks}
+}
+
 func c25Key(c c25Case) string {
 	var sb strings.Builder
 	fmt.Fprintf(&sb, "%s/p%d/w%v", c.Part, c.Policy, c.NearWrap)
+	if c.Part == "getconn" {
+		fmt.Fprintf(&sb, "/u%d/f%s", c.UserType, c.Fallback)
+		for _, g := range c.Groups {
+			g.Part = "g"
+			sb.WriteString("|" + c25Key(g))
+		}
+		return sb.String()
+	}
 	for i, w := range c.Weights {
 		l, u := "r", "d"
 		if c.Local != nil && c.Local[i] {
@@ -507,6 +629,9 @@ func c25Key(c c25Case) string {
 
 func c25Sig(c c25Case, r c25Result) string {
 	part := c.Part
+	if c.Part == "getconn" {
+		return fmt.Sprintf("getconn/%s/user%d/policy%d", r.Clause, c.UserType, c.Policy)
+	}
 	if r.Clause == "window" {
 		if r.Wrap {
 			return part + "/window/across-uint32-wrap"
@@ -533,6 +658,11 @@ func TestVerif_C25(t *testing.T) {
 		if r.Clause == "" {
 			return
 		}
+		if c.Part == "getconn" {
+			g := c.Groups[c.UserType]
+			rec.Violation(c25Sig(c, r), fmt.Sprintf("Slice.GetConn(fromSlave, userType=%d, policy=%d) fallback=%s, group of this user: weights=%v local=%v up=%v: %s: %s", c.UserType, c.Policy, c.Fallback, g.Weights, g.Local, g.Up, r.Clause, r.Detail), c)
+			return
+		}
 		rec.Violation(c25Sig(c, r), fmt.Sprintf("%s weights=%v local=%v up=%v policy=%d nearWrap=%v: %s: %s", c.Part, c.Weights, c.Local, c.Up, c.Policy, c.NearWrap, r.Clause, r.Detail), c)
 	}
 	nontrivial := func(c c25Case) {
@@ -550,7 +680,7 @@ func TestVerif_C25(t *testing.T) {
 				special = true
 			}
 		}
-		if weighted >= 2 || special {
+		if weighted >= 2 || special || c.Part == "getconn" {
 			rec.Nontrivial(c25Key(c))
 		}
 	}
@@ -571,6 +701,10 @@ func TestVerif_C25(t *testing.T) {
 		case "conc-next", "conc-slaveconn":
 			r = c25RunConc(c)
 			rec.Count("concurrent.cases", 1)
+		case "getconn":
+			r = c25RunGetConn(c)
+			rec.Count("getconn.selections", int64(len(r.Picks)))
+			rec.Count(fmt.Sprintf("getconn.cases.user%d", c.UserType), 1)
 		case "status-race":
 			var picked int64
 			r, picked = c25RunStatusRace(c, kit.N(4000, 40000), kit.N(1500, 10000))
@@ -582,7 +716,7 @@ func TestVerif_C25(t *testing.T) {
 			rec.Count("cases.started_before_uint32_wrap", 1)
 		}
 		report(c, r)
-		if c.Part == "slaveconn" || (c.Part == "next" && len(c.Weights) >= 3) {
+		if c.Part == "slaveconn" || c.Part == "getconn" || (c.Part == "next" && len(c.Weights) >= 3) {
 			rec.Sample(map[string]interface{}{"case": c, "picks": r.Picks, "clause": r.Clause})
 		}
 	}
@@ -647,6 +781,18 @@ func TestVerif_C25(t *testing.T) {
 		runOne(gen(r))
 	}
 
+	// (3b) the entry point Slice.GetConn: user type x policy x fallback, three independent groups
+	r = kit.SubRand(kit.Seed(), "C25/getconn")
+	for i, n := 0, kit.N(4500, 150000); i < n; i++ {
+		c := c25Case{Part: "getconn", UserType: i % 3, Policy: (i / 3) % 3, Fallback: []string{"off", "on"}[(i/9)%2]}
+		for g := 0; g < 3; g++ {
+			gc := gen(r)
+			gc.Part, gc.NearWrap, gc.Policy = "", false, 0
+			c.Groups = append(c.Groups, gc)
+		}
+		runOne(c)
+	}
+
 	// (4) concurrency: exact multiset
 	r = kit.SubRand(kit.Seed(), "C25/conc")
 	for i, n := 0, kit.N(60, 1500); i < n; i++ {
@@ -678,7 +824,7 @@ func TestVerif_C25(t *testing.T) {
 	}
 
 	keys := []string{}
-	for _, k := range []string{"next.draws", "slaveconn.selections", "slaveconn.refused", "concurrent.cases", "statusrace.selections"} {
+	for _, k := range []string{"next.draws", "slaveconn.selections", "slaveconn.refused", "getconn.selections", "concurrent.cases", "statusrace.selections"} {
 		keys = append(keys, fmt.Sprintf("%s=%d", k, rec.CounterValue(k)))
 	}
 	sort.Strings(keys)
